@@ -9,7 +9,7 @@ use crate::{
     eng::{Engine, F, R},
     gen::{cfg_strategy, chacha, lattice, rand_scalar, triple_strategy, Cfg, Triple, TripleSpec},
     refimpl::{Proof, ELL},
-    runner::{guarded, no_fixed, sub, CaseLog, PropertyDef, RunCtx, Sub, Tier},
+    runner::{guarded, setup, no_fixed, sub, CaseLog, PropertyDef, RunCtx, Sub, Tier},
 };
 
 #[derive(Clone, Debug, Serialize, Deserialize)]
@@ -285,7 +285,7 @@ pub fn str_oracle<E: Engine>(_ctx: &RunCtx, spec: &StrSpec, log: &mut CaseLog) -
 pub fn prover_oracle<E: Engine>(ctx: &RunCtx, spec: &TripleSpec, log: &mut CaseLog) -> Result<(), String> {
     E::reset_case();
     let t = Triple::<E>::build(spec)?;
-    let proof = guarded(|| t.prove())?.map_err(|e| format!("prover refused a valid witness: {:?}", e))?;
+    let proof = setup(guarded(|| t.prove()), "the prover refused or panicked on a valid witness (C01's subject)")?;
     let bytes = proof.to_bytes();
     let want_len = 1 + 32 * (5 + t.cfg.ext + 2 * t.cfg.rounds());
     if bytes.len() != want_len {
@@ -344,9 +344,9 @@ pub fn prover_oracle<E: Engine>(ctx: &RunCtx, spec: &TripleSpec, log: &mut CaseL
             .zip(short.iter())
             .map(|(v, r)| E::commit(t.params.pc_gens(), &curve25519_dalek::scalar::Scalar::from(*v), r).map_err(|e| format!("commit: {:?}", e)))
             .collect::<Result<_, _>>()?;
-        let st = RangeStatement::init(t.params.clone(), cs, t.promises.clone(), t.seed).map_err(|e| format!("{:?}", e))?;
+        let st = RangeStatement::init(t.params.clone(), cs, t.promises.clone(), t.seed).map_err(crate::runner::skip_err)?;
         let w = RangeWitness::init(t.values.iter().zip(short.iter()).map(|(v, r)| CommitmentOpening::new(*v, r.clone())).collect())
-            .map_err(|e| format!("{:?}", e))?;
+            .map_err(crate::runner::skip_err)?;
         if let Ok(p) = guarded(|| E::prove(&mut t.transcript(), &st, &w, &mut spec.rng.make()))? {
             let b = p.to_bytes();
             match guarded(|| RangeProof::<E::P>::from_bytes(&b))? {
